@@ -153,7 +153,8 @@ def mk_exp(arg):
         c, fs = _split_coeff(m)
         if not fs:
             if c != 0:
-                out = mul(out, EXP(rv(c)))
+                # transcendental functions of numeric CONSTANTS are evaluated in floats (as the real code does)
+                out = mul(out, rv(math.exp(float(c))))
             continue
         if len(fs) == 1 and _is_app_of(fs[0], LOG) and c.denominator == 1:
             n = int(c)
@@ -165,7 +166,14 @@ def mk_exp(arg):
         body = fs[0]
         for f in fs[1:]:
             body = body * f
-        if c < 0:
+        if c.denominator == 1 and abs(c) <= 16:
+            # EXP(n*b) = EXP(b)^n for integer n: one canonical atom EXP(b) per body
+            atom = EXP(z3.simplify(body, som=True))
+            if c < 0:
+                den = mul(den, _ipow(atom, int(-c)))
+            else:
+                out = mul(out, _ipow(atom, int(c)))
+        elif c < 0:
             den = mul(den, EXP(z3.simplify(rv(-c) * body, som=True)))
         else:
             out = mul(out, EXP(z3.simplify(rv(c) * body, som=True)))
@@ -188,6 +196,8 @@ def mk_log(arg):
     if _is_num(a):
         if _numval(a) == 1:
             return z3.RealVal(0)
+        if _numval(a) > 0:
+            return rv(math.log(float(_numval(a))))
         return LOG(a)
     if z3.is_mul(a):
         out = None
